@@ -86,6 +86,11 @@ CmpHolds(op, l, r) ==
 RECURSIVE SumSeq(_, _)
 SumSeq(q, i) == IF i > Len(q) THEN 0 ELSE q[i][2] + SumSeq(q, i + 1)
 
+RECURSIVE Gcd(_, _)
+Gcd(a, b) == IF b = 0 THEN a ELSE Gcd(b, a % b)
+\* p/q in lowest terms with q > 0 (the Go side maps a float to the same form when it is exactly representable so)
+Ratio(p, q) == LET g == Gcd(Abs(p), q) IN IF p = 0 THEN <<"ratio", 0, 1>> ELSE <<"ratio", p \div g, q \div g>>
+
 \* vals: sequence of the reducer argument evaluated per solution (<<>> rows for fn:count)
 Reduce(f, vals) ==
   CASE f = "fn:count" -> Num(Len(vals))
@@ -93,8 +98,8 @@ Reduce(f, vals) ==
     [] f = "fn:max"   -> Num(MaxOf({vals[i][2] : i \in DOMAIN vals}))
     [] f = "fn:min"   -> Num(MinOf({vals[i][2] : i \in DOMAIN vals}))
     [] f = "fn:count_distinct" -> Num(Cardinality(Ran(vals)))
-    [] f = "fn:collect_distinct" -> <<"set", Ran(vals)>>   \* compared as a set
-    [] f = "fn:avg"   -> <<"ratio", SumSeq(vals, 1), Len(vals)>>  \* exact rational
+    [] f = "fn:collect_distinct" -> <<"set", Ran(vals), Cardinality(Ran(vals))>>   \* read as a set (order is unspecified)
+    [] f = "fn:avg"   -> Ratio(SumSeq(vals, 1), Len(vals))  \* exact rational in lowest terms
     [] OTHER -> ERR
 
 =============================================================================
